@@ -114,6 +114,8 @@ class Batch:
                     # genuine failing input: the implementation's output violates the specification
                     rep = {"label": label, "meta": meta, "real": str(real)[:4000],
                            "spec": str(sp_c)[:4000], "model": str(mo_c)[:4000]}
+                    if any(v["sig"] == sig_of(chk.pid, label, real, sp_c) for v in chk.violations):
+                        continue          # this signature already has its (shrunk) replay: do not shrink every further instance
                     if on_violation:
                         rep = on_violation(idx, self.cases[idx], rep) or rep
                     elif self.factories.get(idx) and isinstance(meta.get("xs"), list):
